@@ -165,6 +165,10 @@ pub fn gen_op(rng: &mut Rng, rest_len: usize, chunk_len: usize, first16: usize, 
     }
 }
 
+fn plan_has_chain(p: &J) -> bool {
+    p.str("k") == Some("chain") || ["a", "b", "in"].iter().any(|k| p.get(k).map(plan_has_chain).unwrap_or(false))
+}
+
 enum Flow {
     Continue,
     End,
@@ -229,7 +233,14 @@ fn do_op<B: Buf>(cx: &mut Ctx, b: &mut B, rest: &mut Vec<u8>, op: &J, what: &str
                 }
                 (Err(_), false) => {
                     cx.panics += 1;
-                    Flow::End
+                    // A Chain may have consumed its first half before the second refuses; in a nest
+                    // without Chain nothing went through, so every adapter must still say so (C12)
+                    if what == "nest" && !plan_has_chain(cx.plan) {
+                        cx.hit("refused_advance_then_continued");
+                        Flow::Continue
+                    } else {
+                        Flow::End
+                    }
                 }
                 (Ok(()), false) => {
                     cx.law("advance-past-end-returned", format!("{}: advance({}) returned with only {} bytes left", what, n, len));
